@@ -199,7 +199,11 @@ class Arr:
         v = self.a.flat[0]
         return v.__index__() if isinstance(v, Sym) else int(v)
 
-    __int__ = __index__
+    def __int__(self):
+        if self.a.size != 1:
+            raise TypeError("only one element tensors can be converted to Python scalars")
+        v = core.s_int(self.a.flat[0])         # truncation toward zero for reals, like int(tensor)
+        return int(v)
 
     def __float__(self):
         v = self.a.flat[0]
